@@ -42,7 +42,7 @@ EXHAUSTIVE = {"quick": "success/failure strings up to length 8; full-alphabet st
 REACH = {t: ["raising_feed", "reset_by_success_at_each_run_length", "failure_in_first_command",
              "failure_in_second_command", "period_boundary_crossed", "v4_nop", "timeout_failure",
              "invalid_command_failure", "stopped_failure", "raise_twice_in_a_row", "closed_failure",
-             "few_free_buffers_reported"] for t in ("quick", "thorough")}
+             "few_free_buffers_reported", "ncp_restarted_between_feeds"] for t in ("quick", "thorough")}
 SHARD_TIMEOUT = {"quick": 900, "thorough": 3600}
 
 
@@ -108,6 +108,18 @@ def run_shard(desc) -> Acc:
                     closed[0] = True
                     ez.close()  # what enter_failed_state() does; the watchdog keeps feeding afterwards
                 acc.hit("closed_failure")
+            if sym == "R":
+                # the application restarts the NCP between two feeds (what it does after a restored network or
+                # a failure): stop, start-up reset with the version negotiated anew, configuration written again -
+                # the EZSP object stays, its protocol handler is a new one.  The feed itself is then a success.
+                try:
+                    ez.stop_ezsp()
+                    await ez.startup_reset()
+                    await ez.write_config({})
+                    acc.hit("ncp_restarted_between_feeds")
+                except BaseException as ex:  # noqa: BLE001
+                    acc.violation("C19/setup/restart-failed", f"restarting the NCP between feeds failed: {ex!r}", case)
+                sym = "S"
             if sym == "X":
                 ez.stop_ezsp()
                 acc.hit("stopped_failure")
@@ -209,6 +221,11 @@ def run_shard(desc) -> Acc:
         for L in range(1, desc["lfull"] + 1):
             for string in itertools.product(alpha, repeat=L):
                 await play(list(string), "full")
+        # histories with a restart of the NCP in them (same EZSP object, new protocol handler of the same version)
+        for k in range(0, MAXF + 1):
+            for kind in kinds[:2]:
+                await play([kind] * k + ["R"] + ["S"] * (MAXF + 2), "restart")
+                await play(["R"] + [kind] * MAXF + ["R", "S", kind], "restart")
         if run_lengths_reset >= set(range(1, MAXF + 2)):
             acc.hit("reset_by_success_at_each_run_length")
         if V == 4 and desc.get("last"):
